@@ -38,6 +38,7 @@ predicate('uf_count', 'u', '''
 ''')
 
 predicate('wf', 'u', 'uf_shape(u) and uf_forest(u) and uf_count(u)')
+predicate('distinct', 'l', 'all(all(implies(i != j, l[i] != l[j]) for j in range(len(l))) for i in range(len(l)))')
 
 # abstract view: are two present elements in the same class?
 predicate('conn', 'u, a, b', 'u.rep[u._indx[a]] == u.rep[u._indx[b]]')
@@ -54,9 +55,12 @@ fn(UF + '.__init__', properties=['C20'],
             'implies(elements is None, self.n_elts == 0)',
             'implies(elements is not None, all(elements[j] in self._indx for j in range(len(elements))))',
             'implies(elements is not None, all(implies(e in self._indx, any(elements[j] == e for j in range(len(elements)))) for e in Elt))',
+            # pairwise distinct elements are numbered in the order given
+            'implies(elements is not None and distinct(elements), self.n_elts == len(elements) and all(self._indx[elements[j]] == j for j in range(len(elements))))',
             ],
    loops={0: loop(invariant=['wf(self)', 'all(self.rep[i] == i for i in range(self.n_elts))',
                              'self.n_comps == self.n_elts',
+                             'implies(distinct(elements), self.n_elts == it0 and all(self._indx[elements[j]] == j for j in range(it0)))',
                              'all(elements[j] in self._indx for j in range(it0))',
                              'all(implies(e in self._indx, any(elements[j] == e for j in range(it0))) for e in Elt)'])})
 
@@ -136,6 +140,10 @@ self.rep = ite(merged, lam(lambda i: winner if self.rep[i] == loser else self.re
             # element set = old set + {x, y}; old indices are kept
             'all(implies(old(e in self._indx), e in self._indx and self._indx[e] == old(self._indx[e])) for e in Elt)',
             'all(implies(e in self._indx, old(e in self._indx) or e == x or e == y) for e in Elt)',
+            # merging two present elements changes neither the element set nor, when they were already joined, the count;
+            # otherwise exactly one class disappears
+            'implies(old(x in self._indx) and old(y in self._indx), self.n_elts == old(self.n_elts) '
+            '    and self.n_comps == old(self.n_comps) - (0 if old(conn(self, x, y)) else 1))',
             # the new partition is the least equivalence containing the old one and (x, y):
             'conn(self, x, y)',
             'all(implies(old(a in self._indx) and old(b in self._indx), '
